@@ -664,6 +664,7 @@ func (e *Exec) enterLoopHeader(st *State, fr *Frame, lp *Loop) bool {
 				}
 			}
 			sort.Strings(autoFrame)
+			sort.Strings(autoFrame)
 		}
 	}
 	evalInvs := func() []*Term {
@@ -748,12 +749,23 @@ func (e *Exec) enterLoopHeader(st *State, fr *Frame, lp *Loop) bool {
 	var restr []restrictEntry
 	for _, r := range restrs {
 		root := nameGround(restrArr(r.expr))
-		for h, srt := range r.heaps {
+		for _, h := range sortedSortKeys(r.heaps) {
+			srt := r.heaps[h]
 			restr = append(restr, restrictEntry{heap: h, sort: srt, root: root, entryHeap: st.heap(h, srt), nowEntry: st.alloc, expr: r.expr})
 		}
 	}
 	e.havocMod(st, mod)
+	lallocs := make([]*ssa.Alloc, 0, len(lp.locals))
 	for a := range lp.locals {
+		lallocs = append(lallocs, a)
+	}
+	sort.Slice(lallocs, func(i, j int) bool {
+		if lallocs[i].Pos() != lallocs[j].Pos() {
+			return lallocs[i].Pos() < lallocs[j].Pos()
+		}
+		return lallocs[i].Name() < lallocs[j].Name()
+	})
+	for _, a := range lallocs {
 		if c, ok := fr.locals[a]; ok {
 			whole := false
 			for _, p := range lp.lpaths[a] {
